@@ -21,8 +21,10 @@ import (
 // Unsubscribe never blocks.
 //
 // The subscription channel holds maxEventChSize = 65536 events (event/event.go:17, newSubscription).
-// A case posts at most c39MaxPosts (1 200) events in total, so no buffer can fill and the "unless its
-// buffer was full" exemption never applies.
+// A case posts at most c39MaxPosts (1 200) events in total, except in the "full-buffer" sub-check, whose
+// cases contain one burst of about 65536 events of one type: subscribers that do not drain in time
+// lose what does not fit ("unless its buffer was full"), which the model reproduces; all others
+// must lose nothing.
 //
 // Two generators, one test:
 //   [sequential] the whole op list (subscribe / post / unsubscribe / stop / drain) is data; it is
@@ -183,6 +185,9 @@ func c39Gen(t *rapid.T) c39Case {
 	return c
 }
 
+// c39BufSize is the documented capacity of a subscriber's channel (event.maxEventChSize).
+const c39BufSize = 65536
+
 type c39ModelSub struct {
 	types       [c39Types]bool
 	open        bool
@@ -194,7 +199,7 @@ type c39ModelSub struct {
 }
 
 func c39Exec(c c39Case, x *pbt.Ctx) error {
-	total := 0
+	total, floods := 0, 0
 	for _, op := range c.Ops {
 		switch op.Kind {
 		case "sub":
@@ -205,7 +210,13 @@ func c39Exec(c c39Case, x *pbt.Ctx) error {
 			if op.N < 0 || op.Type < 0 || op.Type > 3 {
 				return nil
 			}
-			total += op.N
+			if op.N < c39BufSize-100 {
+				total += op.N
+			} else if op.N > c39BufSize+100 {
+				return nil
+			} else {
+				floods++
+			}
 		case "unsub", "drain":
 			if op.Sub < 0 || op.N < 0 {
 				return nil
@@ -215,8 +226,11 @@ func c39Exec(c c39Case, x *pbt.Ctx) error {
 			return nil
 		}
 	}
-	if total > c39MaxPosts || len(c.Ops) > 400 {
-		return nil // outside the domain: buffers must not fill
+	if total > c39MaxPosts || len(c.Ops) > 400 || floods > 1 {
+		return nil // outside the domain
+	}
+	if floods > 0 {
+		x.Class("buffer-filling-burst")
 	}
 
 	var (
@@ -224,6 +238,7 @@ func c39Exec(c c39Case, x *pbt.Ctx) error {
 		result       = make(chan error, 1)
 		subs   []*c39ModelSub
 	)
+	dropped := false // written by the run goroutine, read after it has reported its result
 	run := func() error {
 		d := event.NewDispatcher()
 		stopped := false
@@ -297,7 +312,11 @@ func c39Exec(c c39Case, x *pbt.Ctx) error {
 						for _, s := range subs {
 							if s.types[op.Type] {
 								if s.open {
-									s.pending = append(s.pending, c39Item{op.Type, seq[op.Type]})
+									if len(s.pending) < c39BufSize {
+										s.pending = append(s.pending, c39Item{op.Type, seq[op.Type]})
+									} else {
+										dropped = true // "unless its buffer was full"
+									}
 									s.gotWhile[op.Type] = true
 								} else if s.unsubbed && s.gotWhile[op.Type] {
 									s.postedAfter = true
@@ -349,6 +368,9 @@ func c39Exec(c c39Case, x *pbt.Ctx) error {
 				return err
 			}
 		}
+		if dropped {
+			x.Class("event-dropped-for-a-full-subscriber")
+		}
 		atomic.StoreInt32(&cur, int32(len(c.Ops)))
 		for j := range subs {
 			if err := drain(len(c.Ops), j, 0); err != nil {
@@ -365,7 +387,11 @@ func c39Exec(c c39Case, x *pbt.Ctx) error {
 		}()
 		result <- run()
 	}()
-	wd := time.NewTimer(c39Watchdog)
+	limit := c39Watchdog
+	if floods > 0 {
+		limit = 20 * c39Watchdog // 65536 posts and receives under the race detector on a busy machine
+	}
+	wd := time.NewTimer(limit)
 	defer wd.Stop()
 	select {
 	case err := <-result:
@@ -378,12 +404,15 @@ func c39Exec(c c39Case, x *pbt.Ctx) error {
 		if i >= 0 && i < len(c.Ops) {
 			kind = c.Ops[i].Kind
 		}
-		return fmt.Errorf("op %d (%s) did not return within %v\n%s", i, kind, c39Watchdog, c39Dump())
+		return fmt.Errorf("op %d (%s) did not return within %v\n%s", i, kind, limit, c39Dump())
 	}
 	for _, s := range subs {
 		if s.postedAfter {
 			x.NonTrivial = true
 		}
+	}
+	if dropped {
+		x.NonTrivial = true
 	}
 	if x.NonTrivial {
 		x.Class("nontrivial-seq")
@@ -752,12 +781,46 @@ func c39Ints(r []int) string {
 	return fmt.Sprintf("[%d %d %d ... %d %d] (%d)", r[0], r[1], r[2], r[len(r)-2], r[len(r)-1], len(r))
 }
 
+// c39FullGen: 2-4 subscribers of one type (some also of others), a burst that fills the buffers of
+// those that do not read, then a few ordinary operations.
+func c39FullGen(t *rapid.T) c39Case {
+	var c c39Case
+	ty := rapid.IntRange(0, 3).Draw(t, "type")
+	n := rapid.IntRange(2, 4).Draw(t, "nsubs")
+	for i := 0; i < n; i++ {
+		types := []int{ty}
+		if rapid.Bool().Draw(t, "more") {
+			types = append(types, (ty+1)%4)
+		}
+		c.Ops = append(c.Ops, c39Op{Kind: "sub", Types: types})
+	}
+	// some events already buffered, some subscribers drained before the burst
+	c.Ops = append(c.Ops, c39Op{Kind: "post", Type: ty, N: rapid.IntRange(0, 20).Draw(t, "pre")})
+	c.Ops = append(c.Ops, c39Op{Kind: "drain", Sub: rapid.IntRange(0, 3).Draw(t, "predrain"), N: rapid.IntRange(0, 30).Draw(t, "predrainn")})
+	c.Ops = append(c.Ops, c39Op{Kind: "post", Type: ty, N: c39BufSize + rapid.IntRange(-6, 40).Draw(t, "burst")})
+	for k := rapid.IntRange(1, 6).Draw(t, "after"); k > 0; k-- {
+		switch rapid.IntRange(0, 4).Draw(t, "akind") {
+		case 0, 1:
+			c.Ops = append(c.Ops, c39Op{Kind: "post", Type: rapid.SampledFrom([]int{ty, ty, (ty + 1) % 4}).Draw(t, "atype"), N: rapid.IntRange(1, 5).Draw(t, "an")})
+		case 2, 3:
+			c.Ops = append(c.Ops, c39Op{Kind: "drain", Sub: rapid.IntRange(0, 3).Draw(t, "asub"), N: rapid.IntRange(0, 10).Draw(t, "amax")})
+		default:
+			c.Ops = append(c.Ops, c39Op{Kind: "unsub", Sub: rapid.IntRange(0, 3).Draw(t, "ausub")})
+		}
+	}
+	return c
+}
+
 func TestC39(t *testing.T) {
 	pbt.Run(t, "C39",
 		"op lists (1..40 ops: subscribe to a subset of 3 types, post 1..40 events of one of 4 types, unsubscribe, stop, partial/full non-blocking drain; <= 5 subscribers, <= 1200 events so the 65536-slot buffers never fill) executed on event.Dispatcher and a model, buffer lengths compared after every op and contents at every drain; Post must return nil before and ErrMuxClosed after Stop; 30 s watchdog on hangs only; non-trivial = a subscriber received an event of a type, unsubscribed, and that type was posted again; distinct by op list",
 		pbt.Options{Sub: "sequential", Checks: pbt.Per(4000, 240000),
 			MinClass: map[string]int{"post-after-stop": 50, "sub-after-stop": 20, "unsub-again-or-after-stop": 50, "nontrivial-seq": 200}},
 		c39Gen, c39Exec)
+	pbt.Run(t, "C39",
+		"2-4 subscribers of one event type (some of a second type too), 0-20 events and a partial drain, then one burst of 65536-6..65536+40 events of that type (the documented buffer capacity is 65536), then 1-6 ordinary posts, drains and unsubscriptions; same model as the sequential sub-check: a subscriber receives, in order, exactly the matching events posted while it was subscribed minus those posted while its buffer held 65536 undelivered events, whatever happens to the other subscribers; non-trivial = the model dropped an event for a full subscriber; distinct = case JSON",
+		pbt.Options{Sub: "full-buffer", Checks: pbt.Per(8, 320), MinClass: map[string]int{"event-dropped-for-a-full-subscriber": 2}},
+		c39FullGen, c39Exec)
 	pbt.Run(t, "C39",
 		"one poster goroutine per type (0..300 events, generated yield period), 1..2 controller goroutines doing subscribe/unsubscribe/stop once a poster reached a generated progress mark, 0..2 subscriptions made up front; schedule-independent oracle from progress counters published around every call: received events per type form a gap-free increasing run that covers every event whose Post started after Subscribe returned and finished before Unsubscribe/Stop was called, and contains no event finished before Subscribe was called, started after Unsubscribe/Stop returned or whose Post returned ErrMuxClosed; Post fails only after Stop was called and always after Stop returned; non-trivial = an explicitly unsubscribed subscriber with a non-empty must-window and posts of that type after its unsubscription; meant to run under -race",
 		pbt.Options{Sub: "concurrent", Journal: true, Checks: pbt.Per(1500, 240000),
